@@ -598,10 +598,16 @@ theorem C15_no_stuck_state {n : Nat} {s : State} (h : Reachable n s) (i : Nat) (
     simp only [InvAt, hent] at inv
     simp only [curTokens, hent]; omega
 
-/-- A waiting caller obtains the lock after the holder releases it: either the token is
-already there (`recv` enabled now) or some caller holds the lock, its `Unlock` is enabled,
-sends a token, and `recv` is enabled right after. -/
-theorem C15_waiter_progress {n : Nat} {s : State} (h : Reachable n s) (t i g : Nat)
+/-- A waiting caller obtains the lock after the holder releases it - *partial*: what is
+proved is enabledness in every reachable state, for every waiter `t`: either the token is
+already there (`recv t` is enabled now) or some caller holds the lock, its `Unlock` is
+enabled (never blocks, never panics), puts a token into the channel, and `recv t` is enabled
+in the very next state.  Together with `C15_no_stuck_state` this excludes lost hand-offs.
+Missing for the full clause: *inevitability for an individual waiter*.  With several
+waiters (or a caller arriving between the send and the receive) the token goes to whichever
+`recv` runs first; which one that is is decided by the Go runtime (`select`, channel receive
+queue), which the model leaves nondeterministic, and no fairness assumption is made. -/
+theorem C15_waiter_progress_partial {n : Nat} {s : State} (h : Reachable n s) (t i g : Nat)
     (ht : s.pcs[t]? = some (.waiting i g)) :
     (∃ s', step s (.recv t) = .ok s') ∨
     (∃ u s' s'', s.pcs[u]? = some (.holding i) ∧ step s (.unlock u) = .ok s' ∧
@@ -638,9 +644,10 @@ theorem C15_waiter_progress {n : Nat} {s : State} (h : Reachable n s) (t i g : N
   · left
     simp [step, ht, htok]
 
-/-- A waiting caller whose context ends returns (with the error): both cancel steps are
-enabled whatever the other threads do in between is covered by `C15_invariant`; here: the
-two steps run and leave the caller idle. -/
+/-- A waiting caller whose context ends returns with the error: for a waiter the two cancel
+steps are enabled one after the other and leave the caller idle (whatever state the other
+threads are in: no hypothesis on `s`; `cancelFinish` stays enabled under any interleaving by
+`C15_cancel_finish_enabled`). -/
 theorem C15_cancel_returns (s : State) (t i g : Nat) (ht : s.pcs[t]? = some (.waiting i g)) :
     ∃ s'', exec s [.cancelCommit t, .cancelFinish t] = some s'' ∧ s''.pcs[t]? = some .idle := by
   have hlt : t < s.pcs.length := by
@@ -794,6 +801,19 @@ example : ∃ s, exec (init 4) busy = some s ∧ Reachable 4 s ∧ holders s 0 =
     rw [h] at hv
     simp at hv
     exact hv
+
+/-- the second alternative of `C15_waiter_progress_partial` happens: waiter 1 has no token yet, the
+holder's unlock sends one, waiter 1 (or 2) can receive it; a cancelled waiter returns -/
+example : (exec (init 4) (busy ++ [.unlock 0, .recv 1])).map view
+    = some ⟨[.idle, .holding 0, .waiting 0 0, .holding 1], some (0, 2, 0), some (0, 1, 0)⟩ := by decide
+example : (exec (init 4) (busy ++ [.unlock 0, .recv 2])).isSome = true := by decide
+example : (exec (init 4) (busy ++ [.cancelCommit 2, .cancelFinish 2])).map view
+    = some ⟨[.holding 0, .waiting 0 0, .idle, .holding 1], some (0, 2, 0), some (0, 1, 0)⟩ := by decide
+/-- a Manager error path (lock.go:96): acquire, store lookup fails, release -/
+example : ((exec (init 2) [.lockFresh 0 0, .lockWait 1 0]).bind fun s =>
+    match mgrAfterAcquire s 0 false with
+    | .ok s' => some (view s')
+    | .error _ => none) = some ⟨[.idle, .waiting 0 0], some (0, 1, 1), none⟩ := by decide
 
 /-- steps that are NOT transitions are rejected by the checker: a second `lockFresh` while held,
 `recv` without a token, `unlock` by a non-holder; a double unlock faults as in the code -/
